@@ -149,7 +149,9 @@ func (f *fixture) ethMutations(kind string, n uint64) []mutation {
 		f    func(nonce *uint64, price, tip, cap *big.Int, gas *uint64, to **common.Address, val *big.Int, data *[]byte, al *ethtypes.AccessList, chain *big.Int, v, r, s *big.Int, typ *int)
 	}
 	eds := []ed{
-		{"nonce+1", func(n *uint64, _, _, _ *big.Int, _ *uint64, _ **common.Address, _ *big.Int, _ *[]byte, _ *ethtypes.AccessList, _ *big.Int, _, _, _ *big.Int, _ *int) { *n++ }},
+		{"nonce+1", func(n *uint64, _, _, _ *big.Int, _ *uint64, _ **common.Address, _ *big.Int, _ *[]byte, _ *ethtypes.AccessList, _ *big.Int, _, _, _ *big.Int, _ *int) {
+			*n++
+		}},
 		{"price+1", func(_ *uint64, p, t, c *big.Int, _ *uint64, _ **common.Address, _ *big.Int, _ *[]byte, _ *ethtypes.AccessList, _ *big.Int, _, _, _ *big.Int, _ *int) {
 			p.Add(p, big.NewInt(1))
 			c.Add(c, big.NewInt(1))
@@ -157,9 +159,15 @@ func (f *fixture) ethMutations(kind string, n uint64) []mutation {
 		{"tip+1", func(_ *uint64, _, t, _ *big.Int, _ *uint64, _ **common.Address, _ *big.Int, _ *[]byte, _ *ethtypes.AccessList, _ *big.Int, _, _, _ *big.Int, _ *int) {
 			t.Add(t, big.NewInt(1))
 		}},
-		{"gas+1", func(_ *uint64, _, _, _ *big.Int, g *uint64, _ **common.Address, _ *big.Int, _ *[]byte, _ *ethtypes.AccessList, _ *big.Int, _, _, _ *big.Int, _ *int) { *g++ }},
-		{"to-other", func(_ *uint64, _, _, _ *big.Int, _ *uint64, to **common.Address, _ *big.Int, _ *[]byte, _ *ethtypes.AccessList, _ *big.Int, _, _, _ *big.Int, _ *int) { *to = &other }},
-		{"to-nil", func(_ *uint64, _, _, _ *big.Int, _ *uint64, to **common.Address, _ *big.Int, _ *[]byte, _ *ethtypes.AccessList, _ *big.Int, _, _, _ *big.Int, _ *int) { *to = nil }},
+		{"gas+1", func(_ *uint64, _, _, _ *big.Int, g *uint64, _ **common.Address, _ *big.Int, _ *[]byte, _ *ethtypes.AccessList, _ *big.Int, _, _, _ *big.Int, _ *int) {
+			*g++
+		}},
+		{"to-other", func(_ *uint64, _, _, _ *big.Int, _ *uint64, to **common.Address, _ *big.Int, _ *[]byte, _ *ethtypes.AccessList, _ *big.Int, _, _, _ *big.Int, _ *int) {
+			*to = &other
+		}},
+		{"to-nil", func(_ *uint64, _, _, _ *big.Int, _ *uint64, to **common.Address, _ *big.Int, _ *[]byte, _ *ethtypes.AccessList, _ *big.Int, _, _, _ *big.Int, _ *int) {
+			*to = nil
+		}},
 		{"value+1", func(_ *uint64, _, _, _ *big.Int, _ *uint64, _ **common.Address, val *big.Int, _ *[]byte, _ *ethtypes.AccessList, _ *big.Int, _, _, _ *big.Int, _ *int) {
 			val.Add(val, big.NewInt(1))
 		}},
@@ -176,13 +184,19 @@ func (f *fixture) ethMutations(kind string, n uint64) []mutation {
 				ch.Add(ch, big.NewInt(1))
 			}
 		}},
-		{"r+1", func(_ *uint64, _, _, _ *big.Int, _ *uint64, _ **common.Address, _ *big.Int, _ *[]byte, _ *ethtypes.AccessList, _ *big.Int, _, r, _ *big.Int, _ *int) { r.Add(r, big.NewInt(1)) }},
-		{"s+1", func(_ *uint64, _, _, _ *big.Int, _ *uint64, _ **common.Address, _ *big.Int, _ *[]byte, _ *ethtypes.AccessList, _ *big.Int, _, _, s *big.Int, _ *int) { s.Add(s, big.NewInt(1)) }},
+		{"r+1", func(_ *uint64, _, _, _ *big.Int, _ *uint64, _ **common.Address, _ *big.Int, _ *[]byte, _ *ethtypes.AccessList, _ *big.Int, _, r, _ *big.Int, _ *int) {
+			r.Add(r, big.NewInt(1))
+		}},
+		{"s+1", func(_ *uint64, _, _, _ *big.Int, _ *uint64, _ **common.Address, _ *big.Int, _ *[]byte, _ *ethtypes.AccessList, _ *big.Int, _, _, s *big.Int, _ *int) {
+			s.Add(s, big.NewInt(1))
+		}},
 		{"s-malleated", func(_ *uint64, _, _, _ *big.Int, _ *uint64, _ **common.Address, _ *big.Int, _ *[]byte, _ *ethtypes.AccessList, _ *big.Int, v, _, s *big.Int, typ *int) {
 			s.Sub(secpN, s)
 			flipV(v, *typ)
 		}},
-		{"v-flip", func(_ *uint64, _, _, _ *big.Int, _ *uint64, _ **common.Address, _ *big.Int, _ *[]byte, _ *ethtypes.AccessList, _ *big.Int, v, _, _ *big.Int, typ *int) { flipV(v, *typ) }},
+		{"v-flip", func(_ *uint64, _, _, _ *big.Int, _ *uint64, _ **common.Address, _ *big.Int, _ *[]byte, _ *ethtypes.AccessList, _ *big.Int, v, _, _ *big.Int, typ *int) {
+			flipV(v, *typ)
+		}},
 		{"v-unprotected", func(_ *uint64, _, _, _ *big.Int, _ *uint64, _ **common.Address, _ *big.Int, _ *[]byte, _ *ethtypes.AccessList, _ *big.Int, v, _, _ *big.Int, typ *int) {
 			if *typ == 0 {
 				// strip the chain id from v: 27/28
@@ -238,8 +252,12 @@ func (f *fixture) ethMutations(kind string, n uint64) []mutation {
 	}
 	wrap("memo", func(b *txtypes.TxBody, _ *txtypes.AuthInfo, _ *[][]byte) { b.Memo = "x" })
 	wrap("timeout", func(b *txtypes.TxBody, _ *txtypes.AuthInfo, _ *[][]byte) { b.TimeoutHeight = 1000 })
-	wrap("fee+1", func(_ *txtypes.TxBody, a *txtypes.AuthInfo, _ *[][]byte) { a.Fee.Amount[0].Amount = a.Fee.Amount[0].Amount.AddRaw(1) })
-	wrap("fee-1", func(_ *txtypes.TxBody, a *txtypes.AuthInfo, _ *[][]byte) { a.Fee.Amount[0].Amount = a.Fee.Amount[0].Amount.SubRaw(1) })
+	wrap("fee+1", func(_ *txtypes.TxBody, a *txtypes.AuthInfo, _ *[][]byte) {
+		a.Fee.Amount[0].Amount = a.Fee.Amount[0].Amount.AddRaw(1)
+	})
+	wrap("fee-1", func(_ *txtypes.TxBody, a *txtypes.AuthInfo, _ *[][]byte) {
+		a.Fee.Amount[0].Amount = a.Fee.Amount[0].Amount.SubRaw(1)
+	})
 	wrap("fee-none", func(_ *txtypes.TxBody, a *txtypes.AuthInfo, _ *[][]byte) { a.Fee.Amount = nil })
 	wrap("gaslimit+1", func(_ *txtypes.TxBody, a *txtypes.AuthInfo, _ *[][]byte) { a.Fee.GasLimit++ })
 	wrap("payer", func(_ *txtypes.TxBody, a *txtypes.AuthInfo, _ *[][]byte) { a.Fee.Payer = w.Addrs[3].String() })
@@ -305,7 +323,9 @@ func (f *fixture) cosmosMutations(ctx sdk.Context, kind string, n uint64) []muta
 	mut("msg-recipient", func(b *txtypes.TxBody, _ *txtypes.AuthInfo, _ *[][]byte) {
 		editSend(b, func(m *banktypes.MsgSend) { m.ToAddress = w.Addrs[3].String() })
 	})
-	mut("msg-duplicate", func(b *txtypes.TxBody, _ *txtypes.AuthInfo, _ *[][]byte) { b.Messages = append(b.Messages, b.Messages[0]) })
+	mut("msg-duplicate", func(b *txtypes.TxBody, _ *txtypes.AuthInfo, _ *[][]byte) {
+		b.Messages = append(b.Messages, b.Messages[0])
+	})
 	mut("memo", func(b *txtypes.TxBody, _ *txtypes.AuthInfo, _ *[][]byte) { b.Memo = "x" })
 	mut("timeout", func(b *txtypes.TxBody, _ *txtypes.AuthInfo, _ *[][]byte) { b.TimeoutHeight = 1000 })
 	mut("ext-dynamicfee", func(b *txtypes.TxBody, _ *txtypes.AuthInfo, _ *[][]byte) {
@@ -314,8 +334,12 @@ func (f *fixture) cosmosMutations(ctx sdk.Context, kind string, n uint64) []muta
 	mut("noncritical-ext", func(b *txtypes.TxBody, _ *txtypes.AuthInfo, _ *[][]byte) {
 		b.NonCriticalExtensionOptions = append(b.NonCriticalExtensionOptions, world.MustAny(&haqqtypes.ExtensionOptionDynamicFeeTx{}))
 	})
-	mut("fee+1", func(_ *txtypes.TxBody, a *txtypes.AuthInfo, _ *[][]byte) { a.Fee.Amount[0].Amount = a.Fee.Amount[0].Amount.AddRaw(1) })
-	mut("fee-1", func(_ *txtypes.TxBody, a *txtypes.AuthInfo, _ *[][]byte) { a.Fee.Amount[0].Amount = a.Fee.Amount[0].Amount.SubRaw(1) })
+	mut("fee+1", func(_ *txtypes.TxBody, a *txtypes.AuthInfo, _ *[][]byte) {
+		a.Fee.Amount[0].Amount = a.Fee.Amount[0].Amount.AddRaw(1)
+	})
+	mut("fee-1", func(_ *txtypes.TxBody, a *txtypes.AuthInfo, _ *[][]byte) {
+		a.Fee.Amount[0].Amount = a.Fee.Amount[0].Amount.SubRaw(1)
+	})
 	mut("gaslimit+1", func(_ *txtypes.TxBody, a *txtypes.AuthInfo, _ *[][]byte) { a.Fee.GasLimit++ })
 	mut("payer", func(_ *txtypes.TxBody, a *txtypes.AuthInfo, _ *[][]byte) { a.Fee.Payer = w.Addrs[3].String() })
 	mut("granter", func(_ *txtypes.TxBody, a *txtypes.AuthInfo, _ *[][]byte) { a.Fee.Granter = w.Addrs[3].String() })
@@ -617,12 +641,25 @@ func (f *fixture) batches(kind string, n0 uint64, shard, n int, idx *int, res *e
 		sender int
 		nonce  uint64
 		tx     *ethtypes.Transaction
+		bad    bool // not signed for this chain: must make the whole envelope unacceptable
 	}
 	mk := func(name string, sender int, nonce uint64) el {
 		s := f.ethSpec(kind, nonce)
-		return el{name, sender, nonce, w.SignEth(w.Keys[sender], s)}
+		return el{name, sender, nonce, w.SignEth(w.Keys[sender], s), false}
 	}
 	alpha := []el{mk("S(n)", f.S, n0), mk("S(n+1)", f.S, n0+1), mk("T(m)", T, m0), mk("T(m+1)", T, m0+1)}
+	// a message of the second sender with the right nonce but signed for another chain id, or (legacy
+	// only) without any chain id: riding along with properly signed messages must not get it accepted
+	{
+		s := f.ethSpec(kind, m0)
+		s.ChainID = new(big.Int).Add(w.EIP155(), big.NewInt(1))
+		alpha = append(alpha, el{"T(m)/other-chain", T, m0, w.SignEth(w.Keys[T], s), true})
+		if kind == "eth-legacy" {
+			u := f.ethSpec(kind, m0)
+			u.Unprotected = true
+			alpha = append(alpha, el{"T(m)/no-chain-id", T, m0, w.SignEth(w.Keys[T], u), true})
+		}
+	}
 	maxLen := 3
 	if tier == "thorough" {
 		maxLen = 4
@@ -639,6 +676,9 @@ func (f *fixture) batches(kind string, n0 uint64, shard, n int, idx *int, res *e
 				for _, e := range cur {
 					txs = append(txs, e.tx)
 					names = append(names, e.name)
+					if e.bad {
+						valid = false
+					}
 					if e.sender == f.S {
 						if e.nonce != seqS {
 							valid = false
@@ -670,7 +710,7 @@ func (f *fixture) batches(kind string, n0 uint64, shard, n int, idx *int, res *e
 						res.Nontrivial[strings.Join(p, "|")] = true
 						if r.Code == 0 || charged {
 							res.AddViolation(engine.Violation{Signature: fmt.Sprintf("C03|kind=%s|case=batch|breach=replay-in-batch", kind),
-								What: "an envelope containing a replayed / out-of-order Ethereum message was accepted or charged", Path: p,
+								What: "an envelope containing a replayed / out-of-order / wrongly signed Ethereum message was accepted or charged", Path: p,
 								Detail: map[string]any{"code": r.Code, "log": firstLine(r.Log), "seqS": fmt.Sprint(pre.seq, "->", post.seq), "seqT": fmt.Sprint(preT, "->", postT)}})
 						}
 					} else {
@@ -708,7 +748,7 @@ func Run(tier string) int {
 	}
 	return engine.Finish(res, engine.Meta{
 		Property: Prop, Tier: tier, Level: "model_checking", Start: start,
-		Rule: "7 transaction kinds x (every single-field post-signing mutation, each followed by the untouched original) + all orders <= depth over {t(n), t(n+1), t(n+1)@otherchain, t(n)@otherchain, t(n+2), mutated t(n)} through the real DeliverTx on branches; reference automaton = sequence number + validly signed payload set; non-trivial = mutation case delivered",
+		Rule:   "7 transaction kinds x (every single-field post-signing mutation, each followed by the untouched original) + all orders <= depth over {t(n), t(n+1), t(n+1)@otherchain, t(n)@otherchain, t(n+2), mutated t(n)} through the real DeliverTx on branches; reference automaton = sequence number + validly signed payload set; non-trivial = mutation case delivered",
 		Bounds: map[string]any{"order_depth": map[string]int{"quick": 3, "thorough": 4}, "kinds": kinds},
 		Assumptions: []string{
 			"DeliverTx path only (CheckTx shares the ante chain; its check state is not branched by the harness)",
